@@ -1,38 +1,50 @@
 #!/usr/bin/env python3
-"""Re-apply every seeded defect under /verif/seeded to /repo (temporarily), run the checks named in its meta.json
-`caught_by`, and report which still catch it.  /repo is restored after every seed.  Usage: tools/seed_regression.py [ids...]"""
+"""Re-apply every seeded defect under seeded/ to the repository (temporarily), run the checks named in its meta.json
+`caught_by` for several harness seeds, and report how often each is caught.  The repository is restored after every seed.
+Usage (from the verif root): tools/seed_regression.py [ids...]   env: VERIF_REPO (default /repo), REG_SEEDS (default "0 1 2").
+Meant to run on a snapshot:  vp run --with-repo -- sh -c 'export VERIF_REPO=$VP_RUN_REPO; ./check --setup && tools/seed_regression.py'"""
 import glob, json, os, re, subprocess, sys
-V = "/verif"
-seeds = sorted(glob.glob(f"{V}/seeded/*/"))
+V = os.path.dirname(os.path.dirname(os.path.abspath(__file__)))
+REPO = os.environ.get("VERIF_REPO", "/repo")
+SEEDS = os.environ.get("REG_SEEDS", "0 1 2").split()
 only = set(sys.argv[1:])
 rows = []
-for d in seeds:
+for d in sorted(glob.glob(f"{V}/seeded/*/")):
     sid = os.path.basename(d.rstrip("/"))
     if only and sid not in only:
         continue
     meta = json.load(open(d + "meta.json"))
-    checks = sorted(set(re.findall(r"\bC\d\d\b", meta.get("caught_by", "")))) or [sid.split("-")[0]]
-    subprocess.run(["git", "-C", "/repo", "checkout", "--", "."], check=True)
-    ap = subprocess.run(["git", "-C", "/repo", "apply", d + "patch.diff"], capture_output=True, text=True)
+    cb = meta.get("caught_by", "")
+    cb = " ".join(map(str, cb)) if isinstance(cb, list) else str(cb)
+    checks = sorted(set(re.findall(r"\bC\d\d\b", cb))) or [sid.split("-")[0]]
+    subprocess.run(["git", "-C", REPO, "checkout", "--", "."], check=True)
+    ap = subprocess.run(["git", "-C", REPO, "apply", d + "patch.diff"], capture_output=True, text=True)
     if ap.returncode != 0:
-        rows.append((sid, "PATCH-DOES-NOT-APPLY", ap.stderr.strip().splitlines()[-1][:100] if ap.stderr else ""))
+        rows.append((sid, "patch does not apply to the current tree (a later repair touched the same lines)", ""))
+        print(rows[-1], flush=True)
         continue
+    demo = subprocess.run(["/venv/bin/python", d + "demo.py"], capture_output=True, text=True, cwd=REPO)
     res = {}
     try:
         for c in checks:
-            out = subprocess.run([f"{V}/check", c], capture_output=True, text=True, cwd=V).stdout
-            concrete = any(l.startswith("VIOLATION") and "no-failing-input-found" not in l for l in out.splitlines())
-            weak = any(l.startswith("VIOLATION") for l in out.splitlines())
-            res[c] = "concrete" if concrete else ("obligation-only" if weak else "MISSED")
+            hits = []
+            for s in SEEDS:
+                out = subprocess.run([f"{V}/check", c], capture_output=True, text=True, cwd=V, env=dict(os.environ, VERIF_SEED=s, VERIF_REPO=REPO)).stdout
+                concrete = any(l.startswith("VIOLATION") and "no-failing-input-found" not in l for l in out.splitlines())
+                weak = any(l.startswith("VIOLATION") for l in out.splitlines())
+                hits.append("C" if concrete else ("o" if weak else "-"))
+            res[c] = "".join(hits)
     finally:
-        subprocess.run(["git", "-C", "/repo", "checkout", "--", "."], check=True)
-    best = "concrete" if "concrete" in res.values() else ("obligation-only" if "obligation-only" in res.values() else "MISSED")
-    rows.append((sid, best, " ".join(f"{k}:{v}" for k, v in res.items())))
+        subprocess.run(["git", "-C", REPO, "checkout", "--", "."], check=True)
+    n_c = max((v.count("C") for v in res.values()), default=0)
+    status = f"caught {n_c}/{len(SEEDS)} (best check)" if demo.returncode != 0 else "demo passes on the current tree: neutralised by a later repair"
+    rows.append((sid, status, " ".join(f"{k}:{v}" for k, v in res.items())))
     print(rows[-1], flush=True)
     for f in glob.glob(f"{V}/replays/*.json"):
         os.remove(f)
 with open(f"{V}/seeded/REGRESSION.md", "w") as f:
-    f.write("# Seeded-defect regression (tools/seed_regression.py)\n\n| seed | result | per check |\n|---|---|---|\n")
+    f.write("# Seeded-defect regression (tools/seed_regression.py)\n\nPer check and harness seed (" + " ".join(SEEDS) +
+            "): C = violation with a concrete replay, o = broken obligation only (no-failing-input-found), - = not reported.\n\n| seed | result | per check |\n|---|---|---|\n")
     for r in rows:
         f.write(f"| {r[0]} | {r[1]} | {r[2]} |\n")
-print("summary:", {k: sum(1 for r in rows if r[1] == k) for k in {r[1] for r in rows}})
+print("done")
